@@ -80,45 +80,93 @@ def fir_digest(fir):
     return h.hexdigest()
 
 
+EXTRA_SRC = gen.HEADER + '''from onnxscript import opset17
+
+
+@script()
+def rep_helper(a: FLOAT[3], alpha: float = 0.5) -> FLOAT[3]:
+    return op.LeakyRelu(a, alpha=alpha) * KG
+
+
+@script()
+def rep_caller(x: FLOAT[3], y: FLOAT[3]) -> FLOAT[3]:
+    t = rep_helper(x, alpha=0.25)
+    u = rep_helper(y)
+    return op.Add(t, u)
+
+
+@script(default_opset=opset17)
+def rep_default_opset(x: FLOAT[3], y: FLOAT[3]) -> FLOAT[3]:
+    return x * y + 1.0
+'''
+
+
 def run_repeat(spec):
+    from onnxscript import FLOAT
+
     viol, events, sigs = [], {}, []
 
     def v(key, what, **detail):
         viol.append({"key": key, "what": what, "detail": detail})
 
+    todo = []
     for i, p in enumerate(spec["scripts"]):
         src, sig = gen.script_source(p, f"rep_fn_{i}")
+        todo.append((src, [f"rep_fn_{i}"], f"repeat:{sig}:{p['gseed']}"))
+    todo.append((EXTRA_SRC, ["rep_caller", "rep_default_opset"], "repeat:extra"))
+    for src, names, sig in todo:
         try:
             mod = _load(src, "rep")
-        except Exception as e:  # refused: not the subject here
+        except Exception:  # refused: not the subject here
             events["refused"] = events.get("refused", 0) + 1
             continue
-        fn = getattr(mod, f"rep_fn_{i}")
-        d0 = fir_digest(fn.function_ir)
-        ms = [ser(fn.to_model_proto()) for _ in range(5)]
-        d1 = fir_digest(fn.function_ir)
-        fs = [ser(fn.to_function_proto()) for _ in range(5)]
-        d2 = fir_digest(fn.function_ir)
-        ms2 = [ser(fn.to_model_proto()), ser(fn.to_model_proto(ir_version=9)), ser(fn.to_model_proto())]
-        d3 = fir_digest(fn.function_ir)
-        events["sub_repeat_scripts"] = events.get("sub_repeat_scripts", 0) + 1
-        events["sub_repeat_calls"] = events.get("sub_repeat_calls", 0) + 13
-        sigs.append(f"repeat:{sig}:{p['gseed']}")
-        if len(set(ms)) != 1 or ms2[0] != ms[0] or ms2[2] != ms[0]:
-            v("sub=repeat;api=to_model_proto;kind=bytes_differ", f"to_model_proto() called repeatedly gives different bytes "
-              f"({len(set(ms + [ms2[0], ms2[2]]))} distinct of 7) for:\n{src}")
-        if len(set(fs)) != 1:
-            v("sub=repeat;api=to_function_proto;kind=bytes_differ", f"to_function_proto() x5 gives {len(set(fs))} distinct "
-              f"serializations for:\n{src}")
-        if d1 != d0:
-            v("sub=repeat;api=to_model_proto;kind=function_ir_mutated", f"to_model_proto() modified function_ir of:\n{src}")
-        if d2 != d1:
-            v("sub=repeat;api=to_function_proto;kind=function_ir_mutated", f"to_function_proto() modified function_ir of:\n{src}")
-        if d3 != d2:
-            v("sub=repeat;api=to_model_proto_kwargs;kind=function_ir_mutated", f"to_model_proto(ir_version=9) modified function_ir "
-              f"of:\n{src}")
+        for name in names:
+            fn = getattr(mod, name)
+            d0 = fir_digest(fn.function_ir)
+            try:
+                f0 = ser(fn.to_function_proto())
+                ms = [ser(fn.to_model_proto()) for _ in range(5)]
+                d1 = fir_digest(fn.function_ir)
+                fs = [ser(fn.to_function_proto()) for _ in range(5)]
+                d2 = fir_digest(fn.function_ir)
+            except Exception as e:  # noqa: BLE001 - decoration succeeded, so proto generation has to succeed every time
+                v("sub=repeat;api=to_model_proto;kind=raises", f"proto generation of the accepted function {name} raises "
+                  f"{type(e).__name__}: {str(e)[:200]} for:\n{src}")
+                continue
+            # calls with options must not leak into later plain calls
+            for kw in ({"ir_version": 9}, {"io_types": FLOAT[3]}, {"opset_version": 17},
+                       {"input_types": [FLOAT[3], FLOAT[3]], "output_types": [FLOAT[3]]}, {"producer_name": "vf"}):
+                try:
+                    fn.to_model_proto(**kw)
+                except Exception:  # noqa: BLE001
+                    events["kwargs_call_refused"] = events.get("kwargs_call_refused", 0) + 1
+            try:
+                m_after = ser(fn.to_model_proto())
+                f_after = ser(fn.to_function_proto())
+            except Exception as e:  # noqa: BLE001
+                v("sub=repeat;api=to_model_proto;kind=raises", f"proto generation of {name} raises after calls with options: "
+                  f"{type(e).__name__}: {str(e)[:200]} for:\n{src}")
+                continue
+            d3 = fir_digest(fn.function_ir)
+            events["sub_repeat_scripts"] = events.get("sub_repeat_scripts", 0) + 1
+            events["sub_repeat_calls"] = events.get("sub_repeat_calls", 0) + 18
+            sigs.append(sig + ":" + name)
+            if len(set(ms)) != 1 or m_after != ms[0]:
+                v("sub=repeat;api=to_model_proto;kind=bytes_differ", f"to_model_proto() of {name} called repeatedly gives different bytes "
+                  f"({len(set(ms + [m_after]))} distinct of 6; after calls with options: {m_after == ms[0]}) for:\n{src}")
+            if len(set(fs)) != 1 or fs[0] != f0 or f_after != f0:
+                v("sub=repeat;api=to_function_proto;kind=bytes_differ", f"to_function_proto() of {name} differs between calls "
+                  f"(before any to_model_proto vs after: {fs[0] == f0}; x5 distinct: {len(set(fs))}; after option calls: {f_after == f0}) "
+                  f"for:\n{src}")
+            if d1 != d0:
+                v("sub=repeat;api=to_model_proto;kind=function_ir_mutated", f"to_model_proto() modified function_ir of {name}:\n{src}")
+            if d2 != d1:
+                v("sub=repeat;api=to_function_proto;kind=function_ir_mutated", f"to_function_proto() modified function_ir of {name}:\n{src}")
+            if d3 != d2:
+                v("sub=repeat;api=to_model_proto_kwargs;kind=function_ir_mutated", f"to_model_proto(<options>) modified function_ir "
+                  f"of {name}:\n{src}")
     return {"status": "ok", "viol": viol, "events": events, "nontrivial": True, "sig": None, "data": {"sigs": sigs},
-            "sample": {"sub": "repeat", "scripts": len(spec["scripts"])}}
+            "sample": {"sub": "repeat", "scripts": len(todo)}}
 
 
 MUT_SRC = '''from onnxscript import script, FLOAT, INT64
